@@ -21,7 +21,21 @@ def splice(text: str, name: str, body: str) -> str:
     return text[:i] + "\n" + body.rstrip() + "\n" + text[j:]
 
 
+def load_leanstage():
+    import sys
+    sys.path.insert(0, str(VERIF / "harness"))
+    spec = importlib.util.spec_from_file_location("leanstage_tables", VERIF / "harness" / "leanstage.py")
+    m = importlib.util.module_from_spec(spec)
+    spec.loader.exec_module(m)
+    return m
+
+
+LS = None
+
+
 def properties_section() -> str:
+    global LS
+    LS = load_leanstage()
     checks = load_checks()
     titles = {}
     for line in (VERIF / "properties.jsonl").read_text().splitlines():
@@ -52,6 +66,13 @@ def properties_section() -> str:
         if witness:
             out.append(f"**Refutation witnesses proved in Lean and replayed on the implementation:** {', '.join(witness)}.\n")
         out.append(f"**Theorems in `Props/{pid}.lean` ({len(thms)}):** {', '.join(thms)}.\n")
+        extra = []
+        for label, table in (("Props/Redis.lean + Props/RedisConservation.lean", LS.REDIS_THEOREMS), ("Props/Rabbit.lean", LS.RABBIT_THEOREMS),
+                             ("Props/StopRedis.lean", LS.STOP_THEOREMS)):
+            if table.get(pid):
+                extra.append(f"`{label}`: {', '.join(table[pid])}")
+        if extra:
+            out.append("**Broker-specific theorems audited with this property:** " + "; ".join(extra) + ".\n")
     return "\n".join(out)
 
 
